@@ -216,6 +216,16 @@ func genPool(rt *rapid.T, n int) []*Spec {
 		"c.go":  "package pkg\n\nfunc (p *parser) on_v__c(t, u, v Token) (r any) { return }\nfunc (p *parser) on_w__c(a, b, c, d Token) rune { return 0 }\nfunc (p *parser) on_x__c(a, b, c Token) []byte { return nil }\n",
 		"d.go":  "package pkg\n\nfunc (p *parser) on_v__d(t, u, v, w Token) interface{} { return nil }\nfunc (p *parser) on_w__d(a, b, c, d, e Token) Num { return 0 }\n",
 	}})
+	// Go files in the directory that are not part of the package and declare other package names
+	// (a build-ignored generator program, a tools file, the external test package)
+	pool = append(pool, &Spec{Name: "other-package-clauses-beside", Sibling: -1, Files: map[string]string{
+		"g.lox":        "@lexer\nA = 'a'\nB = 'b'\n@frag ' ' @discard\n\n@parser\n@start s = A B*\n",
+		"p.go":         "package pkg\n\ntype Token struct{ S string }\n\ntype parser struct{ lox }\n\nfunc (p *parser) on_s(a Token, bs []Token) int { return len(bs) }\n",
+		"gen.go":       "//go:build ignore\n\npackage main\n\nfunc main() {}\n",
+		"tools.go":     "//go:build tools\n\npackage tools\n",
+		"zz_x_test.go": "package pkg_test\n\nimport \"testing\"\n\nfunc TestNothing(t *testing.T) {}\n",
+		"doc_plan9.go": "package plan9only\n",
+	}})
 	for len(pool) < n {
 		switch ri(rt, 0, 2, "kind") {
 		case 0: // lexer-heavy: many modes and overlapping ranges
@@ -555,71 +565,81 @@ func TestC13(t *testing.T) {
 			run.Sample("pool-spec", map[string]any{"name": s.Name, "lox": s.Files["g.lox"]})
 		}
 	}
-	// cheap repeats on the fast loader path (parallel, each in its own directory)
-	forge.FastLoader(true)
-	reps := run.N(60, 300)
+	// cheap repeats on the fast loader path (parallel, each in its own directory), then a few
+	// repeats of the packages that need the real `go list` (imports, several Go files, foreign files)
 	var wg sync.WaitGroup
 	var mu sync.Mutex
 	var firstBad *Case
 	var firstDetail string
 	sem := make(chan struct{}, 8)
-	for _, s := range pool {
-		if !s.Fast {
-			continue
+	for pass := 0; pass < 2 && firstBad == nil; pass++ {
+		forge.FastLoader(pass == 0)
+		reps := run.N(60, 300)
+		if pass == 1 {
+			reps = run.N(8, 40)
 		}
-		s := s
-		wg.Add(1)
-		sem <- struct{}{}
-		go func() {
-			defer wg.Done()
-			defer func() { <-sem }()
-			root, _ := os.MkdirTemp(os.Getenv("VERIF_WORK"), "c13r-")
-			defer os.RemoveAll(root)
-			dir := filepath.Join(root, "pkg")
-			os.MkdirAll(dir, 0o755)
-			os.WriteFile(filepath.Join(root, "go.mod"), []byte("module c13scratch\n\ngo 1.23.0\n"), 0o644)
-			for n, t := range s.Files {
-				os.WriteFile(filepath.Join(dir, n), []byte(t), 0o644)
+		for _, s := range pool {
+			if s.Fast != (pass == 0) {
+				continue
 			}
-			var first *output
-			myReps := reps
-			for k := 0; k < myReps; k++ {
-				t0 := time.Now()
-				gr := loxb.Generate(dir, true)
-				if k == 0 {
-					// a budget of case COUNTS per spec, derived once from the cost of one generation
-					// (large specs get fewer repeats); never a correctness signal
-					if per := time.Since(t0); per > 0 && time.Duration(myReps)*per > 12*time.Second {
-						myReps = max(3, int(12*time.Second/per))
+			s := s
+			wg.Add(1)
+			sem <- struct{}{}
+			go func() {
+				defer wg.Done()
+				defer func() { <-sem }()
+				root, _ := os.MkdirTemp(os.Getenv("VERIF_WORK"), "c13r-")
+				defer os.RemoveAll(root)
+				dir := filepath.Join(root, "pkg")
+				os.MkdirAll(dir, 0o755)
+				os.WriteFile(filepath.Join(root, "go.mod"), []byte("module c13scratch\n\ngo 1.23.0\n"), 0o644)
+				for n, t := range s.Files {
+					os.WriteFile(filepath.Join(dir, n), []byte(t), 0o644)
+				}
+				var first *output
+				myReps := reps
+				for k := 0; k < myReps; k++ {
+					t0 := time.Now()
+					gr := loxb.Generate(dir, true)
+					if k == 0 {
+						// a budget of case COUNTS per spec, derived once from the cost of one generation
+						// (large specs get fewer repeats); never a correctness signal
+						if per := time.Since(t0); per > 0 && time.Duration(myReps)*per > 12*time.Second {
+							myReps = max(3, int(12*time.Second/per))
+						}
+					}
+					run.Eval(1)
+					if s.Fast {
+						run.Class("cheap-repeat")
+					} else {
+						run.Class("go-list-repeat")
+					}
+					o := &output{files: loxb.ReadGen(dir), report: gr.Report}
+					var d string
+					switch {
+					case gr.Panic != nil || !gr.OK:
+						d = fmt.Sprintf("generation %d of %s failed: %v %s", k, s.Name, gr.Panic, gr.Diag)
+					case first == nil:
+						first = o
+					default:
+						if df := first.diff(o); df != "" {
+							d = fmt.Sprintf("repeat %d of spec %s differs from the first generation in the same process: %s", k, s.Name, df)
+						}
+					}
+					if d != "" {
+						mu.Lock()
+						if firstBad == nil {
+							firstBad = &Case{Specs: []*Spec{s}, History: []Step{{Op: "writeSpec"}, {Op: "generate", Arg: "inproc/dir/abs"}, {Op: "generate", Arg: "inproc/dir/abs"}}}
+							firstDetail = d
+						}
+						mu.Unlock()
+						return
 					}
 				}
-				run.Eval(1)
-				run.Class("cheap-repeat")
-				o := &output{files: loxb.ReadGen(dir), report: gr.Report}
-				var d string
-				switch {
-				case gr.Panic != nil || !gr.OK:
-					d = fmt.Sprintf("generation %d of %s failed: %v %s", k, s.Name, gr.Panic, gr.Diag)
-				case first == nil:
-					first = o
-				default:
-					if df := first.diff(o); df != "" {
-						d = fmt.Sprintf("repeat %d of spec %s differs from the first generation in the same process: %s", k, s.Name, df)
-					}
-				}
-				if d != "" {
-					mu.Lock()
-					if firstBad == nil {
-						firstBad = &Case{Specs: []*Spec{s}, History: []Step{{Op: "writeSpec"}, {Op: "generate", Arg: "inproc/dir/abs"}, {Op: "generate", Arg: "inproc/dir/abs"}}}
-						firstDetail = d
-					}
-					mu.Unlock()
-					return
-				}
-			}
-		}()
+			}()
+		}
+		wg.Wait()
 	}
-	wg.Wait()
 	forge.FastLoader(false)
 	if firstBad != nil {
 		report(firstBad, firstDetail)
